@@ -95,7 +95,7 @@ pub fn corrupt(ch: &mut Ch, base: &str) -> (String, &'static str) {
     for _ in 0..n_ops {
         let toks = tokenize(&s);
         let non_ws: Vec<usize> = (0..toks.len()).filter(|i| !s[toks[*i].0..toks[*i].1].chars().all(|c| c.is_whitespace())).collect();
-        let op = ch.below(12);
+        let op = ch.below(13);
         label = match op {
             0 => {
                 let at = char_boundary(&s, ch.idx(s.len() + 1));
@@ -163,6 +163,16 @@ pub fn corrupt(ch: &mut Ch, base: &str) -> (String, &'static str) {
                 let at = char_boundary(&s, ch.idx(s.len() + 1));
                 s.insert_str(at, *ch.pick(UNICODE));
                 "inject_unicode"
+            }
+            12 => {
+                // something at the very start or the very end of the text
+                let piece = *ch.pick(UNICODE);
+                if ch.flip() {
+                    s.insert_str(0, piece);
+                } else {
+                    s.push_str(piece);
+                }
+                "inject_at_boundary"
             }
             9 | 10 => {
                 let snip = *ch.pick(SEMANTIC);
